@@ -53,10 +53,10 @@ where
 
         let a_base2k: usize = a.base2k().as_usize();
         let res_base2k: usize = res.base2k().as_usize();
-        let cnv_offset = a.size().max(b_size);
-        let res_size: usize = (res.size() * res_base2k).div_ceil(a_base2k);
+        // The accumulator holds the full product (`a.size() + b.len() - cnv_offset_hi` limbs, at most this many).
+        let res_size: usize = ((res.size() * res_base2k).div_ceil(a_base2k)).max(a.size() + b_size);
         let lvl_0: usize = self.bytes_of_vec_znx_big(1, res_size);
-        let lvl_1_cnv: usize = self.cnv_by_const_apply_tmp_bytes(res_size, cnv_offset, a.size(), b_size);
+        let lvl_1_cnv: usize = self.cnv_by_const_apply_tmp_bytes(0, res_size, a.size(), b_size);
         let lvl_1_norm: usize = self.vec_znx_big_normalize_tmp_bytes();
         let lvl_1: usize = lvl_1_cnv.max(lvl_1_norm);
 
